@@ -85,7 +85,7 @@ func (rl *raceLog) newReports() (int, []string) {
 			line = strings.TrimSpace(line)
 			if strings.HasPrefix(line, "github.com/go-openapi/spec.") {
 				f := line
-				if i := strings.Index(f, "("); i > 0 {
+				if i := strings.LastIndex(f, "("); i > 0 {
 					f = f[:i]
 				}
 				frames = append(frames, strings.TrimPrefix(f, "github.com/go-openapi/spec."))
@@ -608,7 +608,7 @@ func c17ColdStart(env *core.Env, k int) core.CaseResult {
 				line = strings.TrimSpace(line)
 				if strings.HasPrefix(line, "github.com/go-openapi/spec.") {
 					f := line
-					if i := strings.Index(f, "("); i > 0 {
+					if i := strings.LastIndex(f, "("); i > 0 {
 						f = f[:i]
 					}
 					frames = append(frames, strings.TrimPrefix(f, "github.com/go-openapi/spec."))
@@ -644,11 +644,18 @@ func firstLine(s string) string {
 func ColdStartChild(seed int64) int {
 	spec.VerifHooks.Step, spec.VerifHooks.Resolved = nil, nil
 	spec.VerifHooks.Yield = yieldNoShared
-	if err := loadPinned(); err != nil {
-		fmt.Println("pinned meta-schemas unreadable:", err)
+	// nothing of the package may run before the barrier (no warm-up): the expectation comes from the pinned file, parsed generically
+	pb, err := os.ReadFile(filepath.Join(verifRootDir(), "oracle-data", "jsonschema-draft-04.json"))
+	if err != nil {
+		fmt.Println("pinned meta-schema unreadable:", err)
 		return 3
 	}
-	want, _ := oracle.EvalPointer(pinnedJSON["http://json-schema.org/draft-04/schema"], "/definitions/positiveInteger")
+	pinned, err := oracle.Parse(pb)
+	if err != nil {
+		fmt.Println("pinned meta-schema unparsable:", err)
+		return 3
+	}
+	want, _ := oracle.EvalPointer(pinned, "/definitions/positiveInteger")
 	const n = 16
 	fails := make([]string, n)
 	var wg sync.WaitGroup
